@@ -69,7 +69,7 @@ func CheckAndAcceptAuthorizationIfNeeded
 func UpdateGrant
     requires resp: resp != nil
     let key = gkey(addr_bytes(grantee), addr_bytes(granter), glob_ics20_TransferMsgURL)
-    modifies g_kind, g_exp, g_limited, g_limit
+    modifies g_kind, g_exp, g_limited, g_limit, g_ta
     call SaveGrant requires exact: gte == addr_bytes(grantee) && gtr == addr_bytes(granter) && exp == expiration && authorization == resp.Updated && !resp.Delete
     call DeleteGrant requires exact: gte == addr_bytes(grantee) && gtr == addr_bytes(granter) && url == glob_ics20_TransferMsgURL && resp.Delete
     ensures deleted: err == nil && old(resp.Delete) ==> g_kind == upd(old(g_kind), key, 0)
@@ -78,7 +78,7 @@ func UpdateGrant
 
 func UpdateGrantIfNeeded
     requires wf: contract != nil && (contract.CallerAddress != origin ==> resp != nil)
-    modifies g_kind, g_exp, g_limited, g_limit
+    modifies g_kind, g_exp, g_limited, g_limit, g_ta
     call UpdateGrant requires exact: grantee == old(contract.CallerAddress) && granter == origin && grantee != granter
     ensures own: old(contract.CallerAddress) == origin ==> result == nil && g_kind == old(g_kind) && g_exp == old(g_exp) && g_limited == old(g_limited) && g_limit == old(g_limit)
 
@@ -97,7 +97,7 @@ func (Precompile).Transfer
     let key = gkey(addr_bytes(caller), addr_bytes(origin), glob_ics20_TransferMsgURL)
     let sender = dyn(args[4], Address)
     let M = ret(NewMsgTransfer, 1, 0)
-    modifies cstate, g_kind, g_exp, g_limited, g_limit, sdb_delta
+    modifies cstate, g_kind, g_exp, g_limited, g_limit, g_ta, sdb_delta
     call Keeper.Transfer requires who: msg.Sender == bech_of(origin) || msg.Sender == bech_of(caller)
     call Keeper.Transfer requires named: msg == M && msg.Sender == bech_of(sender) && goCtx == ctx_wrap(ctx) && has_channel(p.channelKeeper, ctx, msg.SourcePort, msg.SourceChannel)
     call Keeper.Transfer requires granted: caller != origin ==> GLive(g_kind, g_exp, key, ctx) && g_kind[key] == TransferTag() && ret(CheckAndAcceptAuthorizationIfNeeded, 1, 0) != nil
